@@ -201,3 +201,413 @@ def c01(pid, tier, seed, selftest=False):
         rep.sample(s)
     runs = st.run_and_validate(rep, pid, "rt", scenarios, tpl, seed)
     return finish(rep, runs)
+
+
+# --------------------------------------------------------------------------
+# C02
+# --------------------------------------------------------------------------
+
+PASSWORDS = ["", "61", "70c3a4c39f776f7264e29c93", "00", "6100", "ff" * 64, "41" * 1024,
+             "70617373776f7264", "70617373776f7265"]
+
+
+def c02(pid, tier, seed, selftest=False):
+    rep = Report(pid, tier, seed)
+    rep.rule = ("TLC-enumerated EncLoop behaviours replayed as password-mode round trips (hooked loops with the password "
+                "AAD prefix; pass_encrypt/pass_decrypt at production size), each third decrypted under a different key / "
+                "password (near misses: one bit flipped, trailing NUL, truncated); passwords incl. empty, NUL, non-ASCII "
+                "UTF-8, 64 x 0xff, 1 KiB; distinct = distinct scenario, non-trivial = non-default schedule or wrong password")
+    rep.assumptions = ["scrypt/AEAD correctness is C18/C19's matter; the symbolic model assumes Scrypt is injective in the password"]
+    build_harness()
+    tpl, tres = st.get_templates(pid)
+    rep.add_model("terms", tres, "byte-layout templates printed from WireFormat/NoiseX")
+    thorough = tier == "thorough"
+    check_model(rep, pid, "enc-mc", "MC_EncLoop", st.enc_constants(cs=2, maxlen=5, hdr="HdrSmall"),
+                st.ENC_INVARIANTS, ENC_ACTIONS)
+    # wrong password = the header does not authenticate (AdvHdr): nothing released, never ok
+    check_model(rep, pid, "dec-mc", "MC_DecLoop",
+                st.dec_constants(cs=2, src="Src322" if thorough else "Src21", hdr="HdrSmall", edits=1),
+                st.DEC_INVARIANTS + ["WrongKeyReleasesNothing"], DEC_ACTIONS + ["AdvHdr"])
+    scenarios = []
+    for cs in ([1, 2, 3] if thorough else [2]):
+        em = st.emit(pid, "enc-emit-cs%d" % cs, "MC_EncLoop",
+                     st.enc_constants(cs=cs, maxlen=(3 * cs + 1) if thorough else (2 * cs + 1), hdr="HdrNone",
+                                      splits=1, shorts=-1))
+        rep.add_model("enc-emit-cs%d" % cs, em, "behaviour enumeration for replay")
+        scenarios += rt_from_enc(em.replays, "chunks", "pass", "h%d." % cs, wrong_every=3)
+    em = st.emit(pid, "enc-emit-api", "MC_EncLoop",
+                 st.enc_constants(cs=2, maxlen=4, hdr="HdrSmall", splits=1, shorts=1))
+    rep.add_model("enc-emit-api", em, "behaviour enumeration (with header phase) for the public API")
+    api = rt_from_enc(em.replays, "pass", "pass", "k.", wrong_every=3)
+    api = api if thorough else api[::6]
+    for i, s in enumerate(api):
+        s["enc"]["password_hex"] = PASSWORDS[i % len(PASSWORDS)]
+        s["enc"]["kseed"] = 1 + i % 4
+    scenarios += api
+    scenarios += production_rt(seed, 360 if thorough else 36, "pass", "p.", wrong_every=3, passwords=PASSWORDS)
+    account(rep, scenarios)
+    for s in scenarios[:1] + scenarios[-3:]:
+        rep.sample(s)
+    runs = st.run_and_validate(rep, pid, "rt", scenarios, tpl, seed, nproc=16)
+    return finish(rep, runs)
+
+
+# --------------------------------------------------------------------------
+# C03
+# --------------------------------------------------------------------------
+
+DEC_NEG = [("NoEofProbe", ["AcceptMeansComplete"]), ("EofAtBoundaryOk", ["AcceptMeansComplete"]),
+           ("FlagNotInAad", ["AcceptMeansComplete", "ReleasedIsAuthenticPrefix"]),
+           ("NonceFromFile", ["AcceptMeansComplete", "ReleasedIsAuthenticPrefix"]),
+           ("HeaderNotChecked", ["AcceptMeansComplete", "ReleasedIsAuthenticPrefix", "WrongKeyReleasesNothing"])]
+
+
+def bitflip_scenarios(api, aad, chunks, prefix, step=1):
+    """Every single-bit change of a complete file (C03: every bit outside the advisory counter
+    field is rejected; a flipped counter bit may be accepted)."""
+    hreal = st.HDR_REAL[api]
+    srcs = [{"chunks": chunks, "kseed": 1, "pseed": 1}]
+    out = []
+    # header bits
+    for bit in range(0, hreal * 8, step):
+        out.append({"op": "dec", "api": api, "aad": aad, "cs": 65536 if api != "chunks" else max(chunks + [1]),
+                    "srcs": srcs, "file": {"hsrc": 0, "hdr": "flip:%d" % bit,
+                                           "recs": [{"src": 0, "idx": i} for i in range(len(chunks))],
+                                           "cut": -1, "trail": 0},
+                    "rs": [], "ws": [], "fs": [], "id": "%sh%d" % (prefix, bit), "edits": ["bit"]})
+    for k, c in enumerate(chunks):
+        nb = (c + 16) * 8
+        for bit in range(0, nb, step):
+            recs = [{"src": 0, "idx": i} for i in range(len(chunks))]
+            recs[k]["tam"] = bit
+            out.append({"op": "dec", "api": api, "aad": aad, "cs": 65536 if api != "chunks" else max(chunks + [1]),
+                        "srcs": srcs, "file": {"hsrc": 0, "hdr": "ok", "recs": recs, "cut": -1, "trail": 0},
+                        "rs": [], "ws": [], "fs": [], "id": "%sr%d.%d" % (prefix, k, bit), "edits": ["bit"]})
+        # flag / length / counter field bits
+        for fld, width in (("flagf", 32), ("lenf", 32), ("ctrf", 64)):
+            for b in range(0, width, max(1, step // 2)):
+                recs = [{"src": 0, "idx": i} for i in range(len(chunks))]
+                base = {"flagf": 1 if k == len(chunks) - 1 else 0, "lenf": c, "ctrf": k}[fld]
+                recs[k][fld] = base ^ (1 << b)
+                out.append({"op": "dec", "api": api, "aad": aad, "cs": 65536 if api != "chunks" else max(chunks + [1]),
+                            "srcs": srcs, "file": {"hsrc": 0, "hdr": "ok", "recs": recs, "cut": -1, "trail": 0},
+                            "rs": [], "ws": [], "fs": [], "id": "%sf%d.%s%d" % (prefix, k, fld, b), "edits": ["bit"]})
+    return out
+
+
+def truncation_scenarios(api, aad, chunks, prefix, every=1):
+    """Every proper prefix of a complete file."""
+    hreal = st.HDR_REAL[api]
+    total = hreal + sum(32 + c for c in chunks)
+    srcs = [{"chunks": chunks, "kseed": 1, "pseed": 1}]
+    out = []
+    for cut in range(0, total, every):
+        out.append({"op": "dec", "api": api, "aad": aad, "cs": 65536 if api != "chunks" else max(chunks + [1]),
+                    "srcs": srcs, "file": {"hsrc": 0, "hdr": "ok",
+                                           "recs": [{"src": 0, "idx": i} for i in range(len(chunks))],
+                                           "cut": cut, "trail": 0},
+                    "rs": [], "ws": [], "fs": [], "id": "%st%d" % (prefix, cut), "edits": ["truncate"]})
+    return out
+
+
+def dec_from_model(rep, pid, name, consts, srcname, apis, variants=1, stride=1):
+    em = st.emit(pid, name, "MC_DecLoop", consts)
+    rep.add_model(name, em, "behaviour enumeration (adversarial files x schedules) for replay")
+    seen = set()
+    out = []
+    for i, raw in enumerate(em.replays):
+        k = json.dumps([raw["file"], raw["rs"], raw["ws"], raw["fs"]], sort_keys=True)
+        if k in seen:
+            continue
+        seen.add(k)
+        for (api, aad, st_) in apis:
+            if len(seen) % st_ != 0:
+                continue
+            out += st.conv_dec(raw, srcname, api=api, aad=aad, sid="%s.%s%s.%d" % (name, api[0], aad[0], i),
+                               variants=variants)
+    return out
+
+
+def c03(pid, tier, seed, selftest=False):
+    rep = Report(pid, tier, seed)
+    rep.rule = ("every abstract file reachable in <= k adversary edits (flip header / ciphertext / flag / length / counter, "
+                "delete, duplicate, swap, splice or replace a record from another authentic file, swap headers, truncate in "
+                "every field class, append) from two authentic files, as enumerated by TLC on DecLoop, is concretised "
+                "(spec-built authentic records, several bit positions / offsets per class) and given to the real decryptor "
+                "(hooked loop with both AAD prefixes, key_decrypt, pass_decrypt); plus every single-bit flip and every "
+                "proper prefix of complete files; verdicts are compared with the contract's class (MUST_ACCEPT / MAY / "
+                "MUST_REJECT) in the trace specification; non-trivial = at least one edit")
+    rep.assumptions = ["AEAD opens exactly what was sealed with the same key, nonce and AD (exercised in C19)",
+                       "distinct files have distinct keys (C07)"]
+    build_harness()
+    tpl, tres = st.get_templates(pid)
+    rep.add_model("terms", tres, "byte-layout templates")
+    thorough = tier == "thorough"
+    edits = 3 if thorough else 2
+    check_model(rep, pid, "dec-mc", "MC_DecLoop",
+                st.dec_constants(cs=2, src="Src21", hdr="HdrSmall", edits=edits, shorts=0, splits=0),
+                st.DEC_INVARIANTS + ["WrongKeyReleasesNothing"],
+                DEC_ACTIONS + ["AdvHdr", "AdvSwapHdr", "AdvTamper", "AdvFlag", "AdvLen", "AdvCtr", "AdvDelete", "AdvDup",
+                               "AdvSwap", "AdvSplice", "AdvReplace", "AdvTruncate", "AdvAppend"], workers=8)
+    if thorough:
+        check_model(rep, pid, "dec-mc-322", "MC_DecLoop",
+                    st.dec_constants(cs=2, src="Src322", hdr="HdrSmall", edits=2, shorts=0, splits=0),
+                    st.DEC_INVARIANTS + ["WrongKeyReleasesNothing"], DEC_ACTIONS, workers=8)
+        check_model(rep, pid, "dec-mc-0", "MC_DecLoop",
+                    st.dec_constants(cs=2, src="Src0", hdr="HdrSmall", edits=2, shorts=0, splits=0),
+                    st.DEC_INVARIANTS + ["WrongKeyReleasesNothing"], DEC_ACTIONS, workers=8)
+    if thorough or selftest:
+        for v, inv in DEC_NEG:
+            negative_variant(rep, pid, "neg-" + v, "MC_DecLoop",
+                             st.dec_constants(cs=2, src="Src21", hdr="HdrSmall", edits=1, shorts=0, splits=0, variant=v),
+                             st.DEC_INVARIANTS + ["WrongKeyReleasesNothing"], inv)
+    scenarios = []
+    scenarios += dec_from_model(rep, pid, "adv-21", st.dec_constants(cs=2, src="Src21", hdr="HdrNone", edits=edits,
+                                                                     shorts=0, splits=0),
+                                "Src21", [("chunks", "key", 1), ("chunks", "pass", 2)], variants=3 if thorough else 2)
+    scenarios += dec_from_model(rep, pid, "adv-0", st.dec_constants(cs=2, src="Src0", hdr="HdrNone", edits=1,
+                                                                    shorts=0, splits=0),
+                                "Src0", [("chunks", "key", 1)], variants=2)
+    # the same with real headers through the public API (header parts are read too)
+    scenarios += dec_from_model(rep, pid, "adv-api", st.dec_constants(cs=2, src="Src21", hdr="HdrSmall",
+                                                                      edits=2 if thorough else 1, shorts=0, splits=0),
+                                "Src21", [("key", "key", 1), ("pass", "pass", 1 if thorough else 2)], variants=3)
+    if thorough:
+        scenarios += dec_from_model(rep, pid, "adv-322", st.dec_constants(cs=2, src="Src322", hdr="HdrNone", edits=2,
+                                                                          shorts=0, splits=0),
+                                    "Src322", [("chunks", "key", 1)], variants=1)
+    step = 1 if thorough else 5
+    scenarios += bitflip_scenarios("chunks", "key", [3, 2], "bc.", step=1)
+    scenarios += bitflip_scenarios("key", "key", [5], "bk.", step=step)
+    scenarios += bitflip_scenarios("pass", "pass", [4], "bp.", step=step * 3 if not thorough else 2)
+    scenarios += truncation_scenarios("chunks", "key", [3, 2, 1], "tc.")
+    scenarios += truncation_scenarios("key", "key", [7, 2], "tk.", every=1 if thorough else 3)
+    scenarios += truncation_scenarios("pass", "pass", [2], "tp.", every=1 if thorough else 7)
+    account(rep, scenarios)
+    for s in scenarios[:1] + scenarios[len(scenarios) // 2:len(scenarios) // 2 + 2] + scenarios[-1:]:
+        rep.sample(s)
+    runs = st.run_and_validate(rep, pid, "adv", scenarios, tpl, seed, nproc=16)
+    acc = sum(1 for r in runs if r["end"] and r["end"]["res"] == "ok")
+    rep.extra["accepted_runs"] = acc
+    rep.extra["rejected_runs"] = len(runs) - acc
+    return finish(rep, runs)
+
+
+# --------------------------------------------------------------------------
+# C04
+# --------------------------------------------------------------------------
+
+def c04(pid, tier, seed, selftest=False):
+    rep = Report(pid, tier, seed)
+    rep.rule = ("decryption runs over authentic and adversarial files (<= 1-2 edits) x read/write schedules (short reads, "
+                "partial accepts) x one injected fault at every position on either side, enumerated by TLC on DecLoop; every "
+                "write call recorded with its bytes and the ciphertext consumed so far is checked against "
+                "ReleasedIsAuthenticPrefix (D1), success conditions (D2) and whole-chunk release (D5) in the trace "
+                "specification; non-trivial = an edit, a fault or a non-default schedule")
+    rep.assumptions = ["'no byte before the chunk verifies' is observed as: no byte of a chunk that does not verify, and none "
+                       "before its tag has been read"]
+    build_harness()
+    tpl, tres = st.get_templates(pid)
+    rep.add_model("terms", tres, "byte-layout templates")
+    thorough = tier == "thorough"
+    check_model(rep, pid, "dec-mc", "MC_DecLoop",
+                st.dec_constants(cs=2, src="Src21", hdr="HdrSmall", edits=2 if thorough else 1, faults=1),
+                st.DEC_INVARIANTS + ["WrongKeyReleasesNothing"], DEC_ACTIONS + DEC_FAULT_ACTIONS, workers=8)
+    if thorough or selftest:
+        negative_variant(rep, pid, "neg-WriteBeforeVerify", "MC_DecLoop",
+                         st.dec_constants(cs=2, src="Src21", hdr="HdrSmall", edits=1, shorts=0, splits=0,
+                                          variant="WriteBeforeVerify"),
+                         st.DEC_INVARIANTS, ["ReleasedIsAuthenticPrefix"])
+        negative_variant(rep, pid, "neg-NoEofProbe", "MC_DecLoop",
+                         st.dec_constants(cs=2, src="Src21", hdr="HdrSmall", edits=1, shorts=0, splits=0,
+                                          variant="NoEofProbe"),
+                         st.DEC_INVARIANTS, ["AcceptMeansComplete"])
+    scenarios = []
+    scenarios += dec_from_model(rep, pid, "sched", st.dec_constants(cs=2, src="Src21", hdr="HdrNone", edits=1, faults=1,
+                                                                    splits=1, shorts=1),
+                                "Src21", [("chunks", "key", 1 if thorough else 2), ("chunks", "pass", 3)], variants=1)
+    scenarios += dec_from_model(rep, pid, "sched-api", st.dec_constants(cs=2, src="Src21", hdr="HdrSmall", edits=1,
+                                                                        faults=1, splits=1 if thorough else 0,
+                                                                        shorts=1 if thorough else 0),
+                                "Src21", [("key", "key", 2 if thorough else 3), ("pass", "pass", 5 if thorough else 9)],
+                                variants=1)
+    if thorough:
+        scenarios += dec_from_model(rep, pid, "sched-322", st.dec_constants(cs=2, src="Src322", hdr="HdrNone", edits=1,
+                                                                            faults=1, splits=1, shorts=1),
+                                    "Src322", [("chunks", "key", 2)], variants=1)
+    account(rep, scenarios)
+    for s in scenarios[:1] + scenarios[len(scenarios) // 2:len(scenarios) // 2 + 2] + scenarios[-1:]:
+        rep.sample(s)
+    runs = st.run_and_validate(rep, pid, "sched", scenarios, tpl, seed, nproc=16)
+    nwrites = sum(1 for r in runs for e in r["events"] if e["ev"] == "write")
+    rep.extra["write_events_checked"] = nwrites
+    return finish(rep, runs)
+
+
+# --------------------------------------------------------------------------
+# C10
+# --------------------------------------------------------------------------
+
+def production_faults(seed, n, prefix):
+    """Production-size runs through the four public functions with one fault at a sampled call
+    (first / last call, both sides of a chunk boundary)."""
+    rnd = random.Random(seed * 31 + 5)
+    out = []
+    for i in range(n):
+        api = ["key", "pass"][i % 2]
+        plen = rnd.choice([0, 1, 65536, 65537, 131072, 150000])
+        nrec = max(1, (plen + 65535) // 65536)
+        kind = rnd.choice(["other", "intr", 0]) if i % 3 else "other"
+        side = i % 3
+        e = {"op": "enc", "api": api, "aad": "key" if api == "key" else "pass", "cs": 65536, "plen": plen,
+             "rs": [], "ws": [], "fs": [], "kseed": 200 + i, "pseed": 3 + i, "id": "%s%d" % (prefix, i)}
+        if side == 0:
+            pos = rnd.choice([0, 1, nrec, nrec + 1])
+            e["rs"] = ["full"] * pos + [kind if kind != 0 else "other"]
+        elif side == 1:
+            pos = rnd.choice([0, 1, 2, 3, 2 + 2 * nrec - 1, 2 + 2 * nrec])
+            e["ws"] = ["full"] * pos + [kind]
+        else:
+            pos = rnd.choice([0, 1, nrec, nrec - 1 if nrec > 1 else 0])
+            e["fs"] = ["full"] * pos + [kind if kind != 0 else "other"]
+        out.append(e)
+        # and a decryption of a specification-built file with a fault
+        chunks = [65536] * (plen // 65536) + ([plen % 65536] if plen % 65536 or plen == 0 else [])
+        d = {"op": "dec", "api": api, "aad": e["aad"], "cs": 65536,
+             "srcs": [{"chunks": chunks, "kseed": 300 + i, "pseed": 5 + i}],
+             "file": {"hsrc": 0, "hdr": "ok", "recs": [{"src": 0, "idx": j} for j in range(len(chunks))], "cut": -1, "trail": 0},
+             "rs": [], "ws": [], "fs": [], "id": "%sd%d" % (prefix, i)}
+        if side == 0:
+            pos = rnd.choice([0, 1, 2, 3, 2 + 2 * len(chunks)])
+            d["rs"] = ["full"] * pos + [kind if kind != 0 else "intr"]
+        elif side == 1:
+            pos = rnd.choice([0, len(chunks) - 1])
+            d["ws"] = ["full"] * pos + [kind]
+        else:
+            pos = rnd.choice([0, len(chunks) - 1])
+            d["fs"] = ["full"] * pos + [kind if kind != 0 else "other"]
+        out.append(d)
+    return out
+
+
+def c10(pid, tier, seed, selftest=False):
+    rep = Report(pid, tier, seed, level="model_checking")
+    rep.rule = ("every (schedule, fault position, fault kind) of EncLoop / DecLoop with one injected fault (I/O error, "
+                "ErrorKind::Interrupted, zero-length write, flush failure), enumerated by TLC, replayed through scripted "
+                "Read/Write objects on the hooked loops (exhaustive, small scope) and on the four public functions (sampled "
+                "positions); traces validated against E2/E3/D3/D4 (error names the failing side; success after a fault only "
+                "if it was Interrupted and retried; written bytes are a prefix of the same implementation's fault-free run); "
+                "non-trivial = a fault or a partial read/write")
+    rep.assumptions = ["a conforming source returns 0 only at end of data; a non-conforming one (data after end of data) is "
+                       "only required not to crash or hang the encryptor"]
+    build_harness()
+    tpl, tres = st.get_templates(pid)
+    rep.add_model("terms", tres, "byte-layout templates")
+    thorough = tier == "thorough"
+    check_model(rep, pid, "enc-mc", "MC_EncLoop",
+                st.enc_constants(cs=2, maxlen=5, hdr="HdrSmall", faults=2 if thorough else 1, nonconf=True),
+                st.ENC_INVARIANTS, ENC_ACTIONS + ENC_FAULT_ACTIONS)
+    check_model(rep, pid, "dec-mc", "MC_DecLoop",
+                st.dec_constants(cs=2, src="Src322" if thorough else "Src21", hdr="HdrSmall", edits=0,
+                                 faults=2 if thorough else 1),
+                st.DEC_INVARIANTS, DEC_ACTIONS + DEC_FAULT_ACTIONS)
+    if thorough or selftest:
+        negative_variant(rep, pid, "neg-SwallowFlushError", "MC_EncLoop",
+                         st.enc_constants(cs=2, maxlen=3, hdr="HdrSmall", faults=1, variant="SwallowFlushError"),
+                         st.ENC_INVARIANTS, ["FaultSurfaces"])
+        negative_variant(rep, pid, "neg-WriteNotAll", "MC_EncLoop",
+                         st.enc_constants(cs=2, maxlen=3, hdr="HdrSmall", faults=0, variant="WriteNotAll"),
+                         st.ENC_INVARIANTS, ["LegalOutput"])
+        negative_variant(rep, pid, "neg-dec-SwallowFlushError", "MC_DecLoop",
+                         st.dec_constants(cs=2, src="Src21", hdr="HdrSmall", edits=0, faults=1, variant="SwallowFlushError"),
+                         st.DEC_INVARIANTS, ["FaultSurfaces"])
+    scenarios = []
+    for cs in ([2, 3] if thorough else [2]):
+        em = st.emit(pid, "enc-faults-cs%d" % cs, "MC_EncLoop",
+                     st.enc_constants(cs=cs, maxlen=(3 * cs + 1) if thorough else 2 * cs + 1, hdr="HdrNone", faults=1,
+                                      splits=1, shorts=-1 if cs == 2 else 2, nonconf=True))
+        rep.add_model("enc-faults-cs%d" % cs, em, "behaviour enumeration for replay")
+        for i, raw in enumerate(em.replays):
+            scenarios.append(st.conv_enc(raw, api="chunks", aad=["key", "pass"][i % 2], kseed=1 + i % 3, pseed=1 + i % 5,
+                                         sid="ef%d.%d" % (cs, i)))
+    em = st.emit(pid, "enc-faults-api", "MC_EncLoop",
+                 st.enc_constants(cs=2, maxlen=4, hdr="HdrSmall", faults=1, splits=1 if thorough else 0,
+                                  shorts=1 if thorough else 0))
+    rep.add_model("enc-faults-api", em, "behaviour enumeration (header phase) for the public API")
+    for i, raw in enumerate(em.replays):
+        if not thorough and i % 2:
+            continue
+        api = ["key", "pass"][i % 5 == 0]
+        scenarios.append(st.conv_enc(raw, api=api, aad="key" if api == "key" else "pass", kseed=1 + i % 3, pseed=1 + i % 5,
+                                     sid="ea.%d" % i))
+    scenarios += dec_from_model(rep, pid, "dec-faults", st.dec_constants(cs=2, src="Src322" if thorough else "Src21",
+                                                                         hdr="HdrNone", edits=0, faults=1, splits=1, shorts=1),
+                                "Src322" if thorough else "Src21", [("chunks", "key", 1), ("chunks", "pass", 2)])
+    scenarios += dec_from_model(rep, pid, "dec-faults-api", st.dec_constants(cs=2, src="Src21", hdr="HdrSmall", edits=0,
+                                                                             faults=1, splits=1, shorts=1),
+                                "Src21", [("key", "key", 1 if thorough else 2), ("pass", "pass", 4 if thorough else 8)])
+    scenarios += production_faults(seed, 150 if thorough else 20, "pf.")
+    account(rep, scenarios)
+    for s in scenarios[:2] + scenarios[len(scenarios) // 2:len(scenarios) // 2 + 1] + scenarios[-1:]:
+        rep.sample(s)
+    runs = st.run_and_validate(rep, pid, "faults", scenarios, tpl, seed, nproc=16)
+    rep.extra["runs_ending_in_error"] = sum(1 for r in runs if r["end"] and r["end"]["res"] != "ok")
+    return finish(rep, runs)
+
+
+# --------------------------------------------------------------------------
+# C11
+# --------------------------------------------------------------------------
+
+def c11(pid, tier, seed, selftest=False):
+    rep = Report(pid, tier, seed, level="model_checking")
+    rep.rule = ("Lag invariant checked by TLC on every state of EncLoop/DecLoop; recorded traces carry per event the peak "
+                "live heap of the code under test (counting allocator) and the consumed / covered byte counts, validated "
+                "against E4/E5/D7/D8: hooked loops with chunk size 4 on inputs up to 64 KiB, and the public functions on "
+                "generated streams of many MiB that are never held in memory (source and sink are generators); "
+                "non-trivial = input longer than one chunk")
+    rep.assumptions = ["heap bound K(CS) = 8*CS + 1 MiB (+34 MiB while scrypt runs at N=32768, r=8): generous constants so "
+                       "that only a length-dependent allocation can cross them",
+                       "memory is a monitored field of the trace, not something TLC derives from the model (DESIGN.md 7)"]
+    build_harness()
+    tpl, tres = st.get_templates(pid)
+    rep.add_model("terms", tres, "byte-layout templates")
+    thorough = tier == "thorough"
+    check_model(rep, pid, "enc-mc", "MC_EncLoop", st.enc_constants(cs=2, maxlen=9 if thorough else 7, hdr="HdrSmall"),
+                st.ENC_INVARIANTS, ENC_ACTIONS)
+    check_model(rep, pid, "dec-mc", "MC_DecLoop", st.dec_constants(cs=2, src="Src322", hdr="HdrSmall", edits=0),
+                st.DEC_INVARIANTS, DEC_ACTIONS)
+    if thorough or selftest:
+        negative_variant(rep, pid, "neg-ReadAllFirst", "MC_EncLoop",
+                         st.enc_constants(cs=2, maxlen=7, hdr="HdrSmall", variant="ReadAllFirst"), st.ENC_INVARIANTS, ["Lag"])
+    MiB = 1 << 20
+    scenarios = []
+    # small scope: chunk size 4; any length-proportional buffer crosses the bound (1 MiB + 32 B) ... the
+    # bound is dominated by the 1 MiB slack, so small-scope runs use long inputs relative to CS
+    for i, plen in enumerate([0, 3, 4, 5, 4096, 65536, 3 * MiB if thorough else MiB]):
+        e = {"op": "enc", "api": "chunks", "aad": "key", "cs": 4 if plen <= 65536 else 1024, "plen": plen, "rs": [], "ws": [],
+             "fs": [], "kseed": 1, "pseed": 2, "id": "s%d" % i, "store": plen <= 65536}
+        scenarios.append({"op": "rt", "id": "s%d" % i, "enc": e, "dec": {"rs": [], "ws": [], "fs": []}} if plen <= 65536 else e)
+    sizes = [(16 * MiB, "key"), (48 * MiB, "pass")] if not thorough else [(1000 * MiB, "key"), (600 * MiB, "pass"), (64 * MiB, "key")]
+    for i, (plen, api) in enumerate(sizes):
+        aad = "key" if api == "key" else "pass"
+        scenarios.append({"op": "enc", "api": api, "aad": aad, "cs": 65536, "plen": plen, "rs": [], "ws": [], "fs": [],
+                          "kseed": 1, "pseed": 4, "id": "be%d" % i, "store": False,
+                          "rgen": 0 if i == 0 else 65536, "wgen": 0 if i == 0 else 100000})
+        scenarios.append({"op": "bigdec", "api": api, "aad": aad, "plen": plen, "chunk": 65536, "rs": [], "ws": [], "fs": [],
+                          "kseed": 1, "pseed": 4, "id": "bd%d" % i, "rgen": 0 if i == 0 else 40000})
+        scenarios.append({"op": "bigdec", "api": api, "aad": aad, "plen": plen // 4 + 17, "chunk": 1000, "rs": [], "ws": [],
+                          "fs": [], "kseed": 2, "pseed": 5, "id": "bs%d" % i})
+    for s in scenarios:
+        e = s["enc"] if s["op"] == "rt" else s
+        rep.case(key_of(s), e["plen"] > e.get("cs", 65536))
+    for s in scenarios[:1] + scenarios[-2:]:
+        rep.sample(s)
+    runs = st.run_and_validate(rep, pid, "big", scenarios, tpl, seed, nproc=len(scenarios))
+    peak = 0
+    for r in runs:
+        for e in r["events"]:
+            peak = max(peak, e["heap"])
+    rep.extra["max_heap_peak_bytes"] = peak
+    rep.extra["largest_input_bytes"] = max(s.get("plen", 0) for s in scenarios if "plen" in s)
+    return finish(rep, runs)
